@@ -51,7 +51,7 @@ class C16(PropBase):
 
     def generate(self, seed, tier, idx):
         rng = Rng(seed)
-        proj = gen.gen_project(rng, n_units=rng.randint(2, 7), inline=0.4, headers=0.9, max_atoms=3, wp=rng.chance(0.3))
+        proj = gen.gen_project(rng, corpus=0.35, n_units=rng.randint(2, 7), inline=0.4, headers=0.9, max_atoms=3, wp=rng.chance(0.3))
         opts = {"--enable": rng.choice(["--enable=style,warning,performance,portability", "--enable=all", "--enable=style,information", "--enable=information"]),
                 "--inline-suppr": "--inline-suppr"}
         if rng.chance(0.5):
